@@ -83,6 +83,8 @@ class Kinds(object):
             return False
         if isinstance(e, (ast.Set, ast.SetComp)):
             return True
+        if isinstance(e, (ast.ListComp, ast.GeneratorExp)):
+            return self.unordered(e.generators[0].iter, fn, depth + 1)
         if isinstance(e, ast.Call):
             n = call_name(e)
             if n in ("set", "frozenset"):
